@@ -329,8 +329,10 @@ func init() {
 				}
 				if cs.Kind == "excl" {
 					cs.Oks, cs.Final = nil, nil
+					c.Pending(&cs)
 					c16RunExcl(&cs)
 				} else {
+					c.Pending(&cs)
 					c16RunHist(&cs)
 				}
 				emit(&cs)
@@ -348,6 +350,7 @@ func init() {
 				backend = "os"
 			}
 			cs := c16Hist(r, r.Range(6, 30), backend)
+			c.Pending(cs)
 			c16RunHist(cs)
 			emit(cs)
 		}
@@ -357,6 +360,7 @@ func init() {
 			for j := 0; j < w; j++ {
 				cs.Writers = append(cs.Writers, append([]byte{byte(j + 1)}, r.Bytes(r.Intn(5))...))
 			}
+			c.Pending(cs)
 			c16RunExcl(cs)
 			emit(cs)
 		}
